@@ -83,6 +83,7 @@ def spec(fmt, mn, mx, st, v):
     Returns a dict:
       kind = 'exact'   : the result must equal `value` (a Fraction)
       kind = 'approx'  : the result must lie within `tol` of one of `candidates`
+      kind = 'grid'    : the result must lie within `tol` of off + k*step for some integer klo <= k <= khi
     plus 'lo'/'hi' when the range must contain the result (strictly or within tol)."""
     integer_fmt = fmt != "float"
     c = clamp(v, mn, mx)
@@ -106,13 +107,12 @@ def spec(fmt, mn, mx, st, v):
         else:
             # six-digit arithmetic: the quotient carries two roundings, the product and the sum one each
             dq = abs(q) * (2 * EPS + EPS * EPS)
-            rs = sorted({rhu(q - dq), r, rhu(q + dq)})
-            cands = [off + k * st for k in range(rs[0], rs[-1] + 1)]
+            klo, khi = min(rhu(q - dq), r), max(rhu(q + dq), r)
             tol = max((abs(k * st) * EPS * (1 + EPS) + (abs(off + k * st) + abs(k * st) * EPS) * EPS)
-                      for k in range(rs[0], rs[-1] + 1)) * Fraction(1000001, 1000000)
+                      for k in (klo, r, khi)) * Fraction(1000001, 1000000)
             if integer_fmt:
                 tol += Fraction(1, 2)
-            out.update(kind="approx", candidates=cands, tol=tol)
+            out.update(kind="grid", off=off, step=st, klo=klo, khi=khi, tol=tol)
     if mn is not None and mx is not None and mn <= mx and ((mx - mn) / st).denominator == 1:
         out.update(lo=mn, hi=mx)
     return out
